@@ -37,6 +37,7 @@ type Step struct {
 }
 
 type Rec struct {
+	Cause  string `json:"cause"`
 	Op     string `json:"op"`
 	Sched  []Step `json:"sched"`
 	Result string `json:"result"`
@@ -185,11 +186,22 @@ func runSchedule(idx int, rec *Rec, report func(sig, detail string)) (conclusive
 		if !xFreed {
 			all = append(all, x)
 		}
-		for _, ch := range all {
-			func() {
-				defer func() { recover() }()
-				ch.Free()
-			}()
+		// a Free may have to wait for room in the write queue: end the congestion first, and never wait for ever
+		p.Close()
+		conn.Close()
+		done := make(chan struct{})
+		go func() {
+			defer close(done)
+			for _, ch := range all {
+				func() {
+					defer func() { recover() }()
+					ch.Free()
+				}()
+			}
+		}()
+		select {
+		case <-done:
+		case <-time.After(stepTimeout):
 		}
 	}()
 	// congestion: each filler sends until its Send blocks; the next filler starts once the previous one is blocked
@@ -454,6 +466,235 @@ func runSchedule(idx int, rec *Rec, report func(sig, detail string)) (conclusive
 	return conclusive
 }
 
+// runWindowSchedule: the Send on X waits for send window (the peer reads everything but grants nothing); "drain" is the
+// peer's window update.  Afterwards the connection must still deliver frames to a sibling channel.
+func runWindowSchedule(idx int, rec *Rec, report func(sig, detail string)) bool {
+	ln, err := net.Listen("tcp", "127.0.0.1:0")
+	if err != nil {
+		report("harness", err.Error())
+		return false
+	}
+	defer ln.Close()
+	type acc struct {
+		p   *peer.Peer
+		err error
+	}
+	accc := make(chan acc, 1)
+	go func() { p, err := accept(ln); accc <- acc{p, err} }()
+	lg := mpxh.NewCapLogger()
+	opts := mpx.Default()
+	opts.Compression = false
+	opts.ChannelWindowSize = 4096
+	conn, st := mpx.Connect(async.NoContext(), ln.Addr().String(), lg, opts)
+	if !st.OK() {
+		report("harness", "connect: "+st.String())
+		return false
+	}
+	defer conn.Close()
+	a := <-accc
+	if a.err != nil {
+		report("harness", "accept: "+a.err.Error())
+		return false
+	}
+	p := a.p
+	defer p.Close()
+	// the peer reads everything, all the time
+	var pmu sync.Mutex
+	var frames []peer.Frame
+	go func() {
+		for {
+			f, err := p.ReadFrame(time.Hour)
+			if err != nil {
+				return
+			}
+			pmu.Lock()
+			frames = append(frames, f.Flatten()...)
+			pmu.Unlock()
+		}
+	}()
+	find := func(ok func(f peer.Frame) bool) (peer.Frame, bool) {
+		deadline := time.Now().Add(stepTimeout)
+		for time.Now().Before(deadline) {
+			pmu.Lock()
+			for _, f := range frames {
+				if ok(f) {
+					pmu.Unlock()
+					return f, true
+				}
+			}
+			pmu.Unlock()
+			time.Sleep(time.Millisecond)
+		}
+		return peer.Frame{}, false
+	}
+	open := func(tag string) (mpx.Channel, bin.Bin128, bool) {
+		ch, st := conn.Channel(async.TimeoutContext(stepTimeout))
+		if !st.OK() {
+			report("harness", "channel: "+st.String())
+			return nil, bin.Bin128{}, false
+		}
+		if st := ch.Send(async.TimeoutContext(stepTimeout), []byte(tag)); !st.OK() {
+			report("harness", "opening send: "+st.String())
+			return nil, bin.Bin128{}, false
+		}
+		f, ok := find(func(f peer.Frame) bool { return f.Code == pmpx.Code_ChannelOpen && string(f.Data) == tag })
+		if !ok {
+			report("harness", "the peer did not see the open frame of "+tag)
+		}
+		return ch, f.ID, ok
+	}
+	x, xid, ok := open("x-open")
+	if !ok {
+		return false
+	}
+	sib, sid, ok := open("s-open")
+	if !ok {
+		return false
+	}
+	xctx := x.Context()
+	xFreed := false
+	defer func() {
+		p.Close()
+		conn.Close()
+		done := make(chan struct{})
+		go func() {
+			defer close(done)
+			for _, ch := range []mpx.Channel{x, sib} {
+				if ch == x && xFreed {
+					continue
+				}
+				func() {
+					defer func() { recover() }()
+					ch.Free()
+				}()
+			}
+		}()
+		select {
+		case <-done:
+		case <-time.After(stepTimeout):
+		}
+	}()
+	// use the window up: 4096 - len("x-open") more bytes are admitted
+	if st := x.Send(async.TimeoutContext(stepTimeout), fill(8, 1, 4096-6)); !st.OK() {
+		report("harness", "the Send which uses up the window failed: "+st.String())
+		return false
+	}
+	payload := fill(9, 1, 64)
+	resc := make(chan opResult, 1)
+	var result *opResult
+	poll := func(d time.Duration) bool {
+		if result != nil {
+			return true
+		}
+		select {
+		case r := <-resc:
+			result = &r
+			return true
+		case <-time.After(d):
+			return false
+		}
+	}
+	dropped := false
+	for k, s := range rec.Sched {
+		switch s.A {
+		case "start":
+			go func() {
+				var r opResult
+				defer func() {
+					if e := recover(); e != nil {
+						r.panic = fmt.Sprint(e)
+					}
+					resc <- r
+				}()
+				r.st = x.Send(async.TimeoutContext(tscale.D(20*time.Second)), payload)
+			}()
+		case "peerclose":
+			if err := p.WriteFrame(peer.CloseMsg(xid, nil)); err != nil {
+				report("harness", "peer close write: "+err.Error())
+				return false
+			}
+			select {
+			case <-xctx.Wait():
+			case <-time.After(stepTimeout):
+				report("stuck:peerclose", fmt.Sprintf("step %d: the peer's close frame did not end the channel within %v", k, stepTimeout))
+				p.Close()
+				return true
+			}
+		case "drain":
+			if err := p.WriteFrame(peer.Window(xid, 4096)); err != nil {
+				report("harness", "window write: "+err.Error())
+				return false
+			}
+		case "drop":
+			dropped = true
+			p.Close()
+			select {
+			case <-conn.Closed().Wait():
+			case <-time.After(stepTimeout):
+				report("stuck:drop", fmt.Sprintf("step %d: the connection did not close within %v after the peer dropped it", k, stepTimeout))
+				return true
+			}
+		}
+		switch s.Phase {
+		case "waiting":
+			if poll(settle) {
+				report("not-blocked", fmt.Sprintf("step %d (%s): Send returned %v although the window is used up", k, s.A, result.st))
+				return true
+			}
+		case "returned":
+			if !poll(stepTimeout) {
+				report("hang:send", fmt.Sprintf("step %d (%s): the model says Send has returned, it is still blocked after %v", k, s.A, stepTimeout))
+				p.Close()
+				return true
+			}
+			if result.panic != "" {
+				report("panic:send", fmt.Sprintf("step %d (%s): Send panicked: %s", k, s.A, result.panic))
+				return true
+			}
+			got := "ok"
+			if !result.st.OK() {
+				got = "closed"
+				switch result.st.Code {
+				case status.CodeClosed, status.CodeCancelled, status.CodeEnd:
+				default:
+					got = string(result.st.Code)
+				}
+			}
+			if got != s.Result {
+				report("result:send:"+got, fmt.Sprintf("step %d (%s): Send returned %v, the model says %q", k, s.A, result.st, s.Result))
+			}
+		}
+	}
+	if !dropped {
+		// the receive loop is alive: a frame for the sibling channel arrives
+		if err := p.WriteFrame(peer.Data(sid, []byte("pong"))); err != nil {
+			report("harness", "sibling write: "+err.Error())
+			return false
+		}
+		b, st := sib.Receive(async.TimeoutContext(stepTimeout))
+		if !st.OK() || string(b) != "pong" {
+			report("sibling", fmt.Sprintf("after the schedule a frame for another channel of the connection was not delivered: %q %v", b, st))
+		}
+		// frames of X on the wire
+		time.Sleep(settle)
+		pmu.Lock()
+		n := 0
+		for _, f := range frames {
+			if f.ID == xid && f.Code == pmpx.Code_ChannelData && bytes.Equal(f.Data, payload) {
+				n++
+			}
+		}
+		pmu.Unlock()
+		if n != rec.Enq {
+			report("frames:x", fmt.Sprintf("Send put %d frames of X on the wire, the model says %d", n, rec.Enq))
+		}
+	}
+	for _, e := range mpxh.Panics(lg.Take()) {
+		report("panic:library", e)
+	}
+	return true
+}
+
 func main() {
 	in := flag.String("in", "", "TLC output with schedules")
 	flag.Parse()
@@ -468,7 +709,11 @@ func main() {
 		if err := json.Unmarshal(raw, &rec); err != nil {
 			return err
 		}
-		if runSchedule(i, &rec, func(sig, detail string) {
+		run := runSchedule
+		if rec.Cause == "window" {
+			run = runWindowSchedule
+		}
+		if run(i, &rec, func(sig, detail string) {
 			nMis++
 			bySig[sig]++
 			if bySig[sig] <= 3 {
